@@ -314,6 +314,22 @@ def o_cross(case):
     s = refaddr.address_for(kind, h, PFX[a])
     c = parse_addr(b, s)
     lab = ["kind=" + kind, "same-net" if a == b else "other-net"]
+    if a != b and a not in GRS and b not in GRS:
+        # one text object shared by the two networks (what ku does when it tries an item on every network): each
+        # network's answer for it is its own answer for the plain string, whichever network looked first
+        for first, second in ((a, b), (b, a)):
+            shared = NETS[first].parseable_str_type(s)
+            for code in (first, second):
+                want = NETS[code].parse.address(s)
+                want = None if want is None else want.script()
+                try:
+                    got = NETS[code].contract.for_address(shared)
+                except ValueError:
+                    got = None
+                if got != want:
+                    _bad("address:shared-text:answer-depends-on-other-network", "%s.contract.for_address(<text object first shown to %s> %r) = %s, "
+                         "for the plain string %s" % (code, first, s, None if got is None else got.hex(), None if want is None else want.hex()))
+        lab.append("shared-text-object")
     if c is None:
         if a == b:
             _bad("address:own-address-refused", "%s refuses its own %s address %r" % (a, kind, s))
